@@ -1,10 +1,11 @@
 #!/bin/bash
 # run every check of one tier, print a one-line summary each
 tier=${1:-quick}
+budget=${2:-}
 cd /verif
 for i in 01 02 03 04 05 06 07 08 09 10 11 12 13 14 15 16 17 18 19 20; do
   s=$(date +%s)
-  out=$(./check C$i --tier $tier 2>&1); rc=$?
+  if [ -n "$budget" ]; then out=$(./check C$i --tier $tier --budget $budget 2>&1); rc=$?; else out=$(./check C$i --tier $tier 2>&1); rc=$?; fi
   e=$(date +%s)
   echo "C$i rc=$rc $((e-s))s $(echo "$out" | grep "^C$i" | head -1)"
   echo "$out" | egrep "VIOLATION|INCONCLUSIVE|HARNESS|KNOWN" | head -5
